@@ -82,6 +82,15 @@ class SympyFaults:
             rate = plan.get("solve", 0)
             if rate and this.key is not None:
                 if derive(plan["seed"], "solve", str(var), *this.key) % 10000 < rate * 10000:
+                    kind = plan.get("solve_kind", "raise")
+                    if kind in ("empty", "double"):
+                        # unusual but legal answers of a solver: no solution found / more than one solution
+                        res = o_s(expr, var, *a, **kw)
+                        name = "solve:" + kind
+                        this.fired[name] = this.fired.get(name, 0) + 1
+                        if kind == "empty" or not isinstance(res, list) or not res:
+                            return []
+                        return list(res) + [res[0] + 1]
                     exc = this.types[derive(plan["seed"], "stype", str(var), *this.key) % len(this.types)]
                     name = "solve:" + exc.__name__
                     this.fired[name] = this.fired.get(name, 0) + 1
